@@ -1145,7 +1145,7 @@ HIST_STOCH_KINDS = ["forms", "forms", "other_iv", "other_run", "same_call_other_
                     "determ", "deepcopy"]
 HIST_PARAM_KINDS = ["fresh", "integrate_same", "integrate_other", "integrate_other", "same_entry_other_grid", "same_entry_other_grid",
                     "same_entry_other_n", "other_entry", "stoch_run", "numbers_then_pdict", "other_pdict", "other_iv", "sibling", "deepcopy"]
-PARAM_FORMS = ["dict", "dict", "list", "array", "tuples", "two_dicts"]
+PARAM_FORMS = ["dict"] + list(SC.PARAM_FORMS)
 
 
 def _iv_op(r, x0, t0, nS, x0_form=None):
@@ -1318,24 +1318,7 @@ def gen_hist_param(r, budget):
     return c
 
 
-def assign_params(model, params, form):
-    """plain numbers for all parameters, in one of the accepted forms"""
-    names = [str(p) for p in model.param_list]
-    if form in ("list", "array", "tuples") and not all(nm in params for nm in names):
-        form = "dict"
-    if form == "list":
-        model.parameters = [float(params[nm]) for nm in names]
-    elif form == "array":
-        model.parameters = np.array([float(params[nm]) for nm in names])
-    elif form == "tuples":
-        model.parameters = [(nm, float(params[nm])) for nm in names]
-    elif form == "two_dicts" and len(params) > 1:
-        ks = list(params)
-        model.parameters = {k: float(params[k]) for k in ks[:len(ks) // 2]}
-        model.parameters = {k: float(params[k]) for k in ks[len(ks) // 2:]}
-    else:
-        model.parameters = {k: float(v) for k, v in params.items()}
-    return form
+assign_params = SC.assign_params
 
 
 def record_of(model):
